@@ -1449,6 +1449,9 @@ fn c15(ctx: &RunCtx) -> i32 {
         if i == 1 {
             return uds_smoke(seed);
         }
+        if i == 2 || i == 3 {
+            return endpoint_smoke(seed, i == 3);
+        }
         if i % 10 == 9 {
             // whole-stack integrity on real client/server chains
             let cfg = e2e_cfg("C15", i / 10, seed);
@@ -1478,10 +1481,10 @@ fn c15(ctx: &RunCtx) -> i32 {
     });
     let rep = Report {
         level: "exploration",
-        rule: "S-codec: generated message sequences (all variants, boundary ids, empty / unicode / 64 KiB / 1 MiB bodies, every io::ErrorKind the platform can produce, every trace-context extreme) written at one end of each shipped transport (unbounded, bounded(0,1,4), serde JSON and bincode with the codec exactly as shipped over a byte pipe that fragments reads and writes down to 1 byte and injects Pending) and compared item by item with what the other end reads, then end-of-stream after drop or close; plus whole client/server chains from S-e2e (every 10th case), a real Unix-socket pair, and hand-edited JSON with optional fields removed. Distinct = distinct (link, direction, fragmentation, end mode, length, variant prefix)".into(),
+        rule: "S-codec: generated message sequences (all variants, boundary ids, empty / unicode / 64 KiB / 1 MiB bodies, every io::ErrorKind the platform can produce, every trace-context extreme) written at one end of each shipped transport (unbounded, bounded(0,1,4), serde JSON and bincode with the codec exactly as shipped over a byte pipe that fragments reads and writes down to 1 byte and injects Pending) and compared item by item with what the other end reads, then end-of-stream after drop or close; plus whole client/server chains from S-e2e (every 10th case), a real Unix-socket pair, the shipped tcp:: and unix:: listen/connect constructors over loopback / a socket file (one exchange each, incl. 1 MiB bodies), both shipped constructors of the serde transport (`new` with a fresh or a previously used Framed whose read buffer already holds tarpc frames, `Transport::from`), and hand-edited JSON with optional fields removed. Distinct = distinct (link, direction, fragmentation, end mode, length, variant prefix)".into(),
         agg,
         extra: BTreeMap::new(),
-        assumptions: vec!["real TCP is not exercised; the byte-stream quantifier is approximated by adversarial fragmentation of an in-memory pipe and a Unix-socket smoke run".into()],
+        assumptions: vec!["real sockets are exercised by three smoke exchanges only (kernel fragmentation is not controllable); the byte-stream quantifier is approximated by adversarial fragmentation of an in-memory pipe".into()],
         required_cells: vec![
             "C15.all-error-kinds".into(),
             "C15.cancel-without-trace-context".into(),
@@ -1567,6 +1570,125 @@ fn uds_smoke(seed: u64) -> Outcome {
     }
     out.sig = 0x0d5;
     out.trace = vec!["50 responses over a real Unix-domain socket pair (bincode)".into()];
+    out
+}
+
+/// The shipped endpoint constructors (`tcp::listen`/`connect`, `unix::listen`/`connect`) over the real
+/// loopback / a real socket file: both directions, including a 1 MiB body. An environment without
+/// loopback networking makes this sub-case a no-op (counted), never a verdict.
+fn endpoint_smoke(seed: u64, unix: bool) -> Outcome {
+    use futures::{SinkExt, StreamExt};
+    use tarpc::{ClientMessage, Response};
+    type C = ClientMessage<String>;
+    type R = Response<String>;
+    let name = if unix { "unix::listen/connect" } else { "tcp::listen/connect" };
+    let mut out = Outcome::default();
+    out.desc = json!({"family": "S-codec", "case": format!("{name} smoke")});
+    let rt = tokio::runtime::Builder::new_current_thread().enable_all().build().unwrap();
+    let mut r = Rng::new(seed ^ 0xE0D);
+    let mut c2s = codec::gen_c2s(&mut r, 30, false);
+    let mut s2c = codec::gen_s2c(&mut r, 30, false);
+    c2s.push(codec::Msg::Req { id: 77, body: "B".repeat(1 << 20), remaining: Some(std::time::Duration::from_secs(5)), trace: (1, 2, true) });
+    s2c.push(codec::Msg::Resp { id: 77, body: Ok("b".repeat(1 << 20)) });
+    let (c2s2, s2c2) = (c2s.clone(), s2c.clone());
+    let (c2s3, s2c3) = (c2s.clone(), s2c.clone());
+    let res = rt.block_on(async move {
+        macro_rules! exchange {
+            ($c:expr, $s:expr) => {{
+                let (mut c, mut s) = ($c, $s);
+                let client = async move {
+                    for m in c2s2.iter() {
+                        c.send(codec::to_client_message(m).0).await?;
+                    }
+                    let mut got = vec![];
+                    while got.len() < s2c2.len() {
+                        match c.next().await {
+                            Some(x) => got.push(x?),
+                            None => break,
+                        }
+                    }
+                    Ok::<Vec<R>, std::io::Error>(got)
+                };
+                let n = c2s3.len();
+                let server = async move {
+                    let mut got = vec![];
+                    while got.len() < n {
+                        match s.next().await {
+                            Some(x) => got.push(x?),
+                            None => break,
+                        }
+                    }
+                    for m in s2c3.iter() {
+                        s.send(codec::to_response(m)).await?;
+                    }
+                    Ok::<Vec<C>, std::io::Error>(got)
+                };
+                let (a, b) = tokio::join!(client, server);
+                Ok::<Option<(Vec<R>, Vec<C>)>, std::io::Error>(Some((a?, b?)))
+            }};
+        }
+        if unix {
+            let path = tarpc::serde_transport::unix::TempPathBuf::with_random("tarpc-verif");
+            let mut l = match tarpc::serde_transport::unix::listen(&path, tokio_serde::formats::Bincode::<C, R>::default).await {
+                Ok(l) => l,
+                Err(_) => return Ok(None),
+            };
+            let c = tarpc::serde_transport::unix::connect(&path, tokio_serde::formats::Bincode::<R, C>::default).await?;
+            let s = l.next().await.ok_or_else(|| std::io::Error::new(std::io::ErrorKind::Other, "listener ended"))??;
+            exchange!(c, s)
+        } else {
+            let mut l = match tarpc::serde_transport::tcp::listen("127.0.0.1:0", tokio_serde::formats::Json::<C, R>::default).await {
+                Ok(l) => l,
+                Err(_) => return Ok(None),
+            };
+            let addr = l.local_addr();
+            let c = match tarpc::serde_transport::tcp::connect(addr, tokio_serde::formats::Json::<R, C>::default).await {
+                Ok(c) => c,
+                Err(_) => return Ok(None),
+            };
+            let s = l.next().await.ok_or_else(|| std::io::Error::new(std::io::ErrorKind::Other, "listener ended"))??;
+            exchange!(c, s)
+        }
+    });
+    match res {
+        Ok(None) => out.count("endpoint_smoke_unavailable", 1),
+        Err(e) => out.viol("C15", "read-error", format!("{name}: {e}")),
+        Ok(Some((resps, reqs))) => {
+            if reqs.len() != c2s.len() || resps.len() != s2c.len() {
+                out.viol("C15", "item-count", format!("{name}: {}/{} client messages and {}/{} responses arrived", reqs.len(), c2s.len(), resps.len(), s2c.len()));
+            }
+            for (m, g) in c2s.iter().zip(reqs.iter()) {
+                let same = match (m, g) {
+                    (codec::Msg::Req { id, body, trace, .. }, ClientMessage::Request(rq)) => *id == rq.id && *body == rq.message && *trace == codec::from_tctx(&rq.context.trace_context),
+                    (codec::Msg::Cancel { id, trace }, ClientMessage::Cancel { request_id, trace_context }) => id == request_id && *trace == codec::from_tctx(trace_context),
+                    _ => false,
+                };
+                if !same {
+                    out.viol("C15", "item-altered-or-reordered", format!("{name}: a client message changed in transit (written {})", format!("{m:?}").chars().take(120).collect::<String>()));
+                    break;
+                }
+            }
+            for (m, g) in s2c.iter().zip(resps.iter()) {
+                if let codec::Msg::Resp { id, body } = m {
+                    let same = *id == g.request_id
+                        && match (body, &g.message) {
+                            (Ok(a), Ok(b)) => a == b,
+                            (Err((k, d)), Err(e)) => *d == e.detail && (e.kind == *k || (!codec::PORTABLE.contains(k) && e.kind == std::io::ErrorKind::Other)),
+                            _ => false,
+                        };
+                    if !same {
+                        out.viol("C15", "item-altered-or-reordered", format!("{name}: a response changed in transit (written {})", format!("{m:?}").chars().take(120).collect::<String>()));
+                        break;
+                    }
+                }
+            }
+            out.cell(if unix { "C15.unix-endpoints-smoke" } else { "C15.tcp-endpoints-smoke" });
+            out.nontrivial("C15");
+            out.count("items_round_tripped", (reqs.len() + resps.len()) as u64);
+        }
+    }
+    out.sig = if unix { 0x0d6 } else { 0x0d7 };
+    out.trace = vec![format!("31 client messages and 31 responses (one 1 MiB body each way) over {name}")];
     out
 }
 
